@@ -117,6 +117,16 @@ func lossyParsedConv(v ssa.Value) string {
 					continue
 				}
 			}
+		case *ssa.UnOp:
+			// a variable captured by a closure, assigned once
+			if ad := eng.LoadAddr(v); ad != nil {
+				if cell := eng.CellOf(ad); cell != nil && !eng.CellEscapes(cell) {
+					if sts := eng.CellStores(cell); len(sts) == 1 {
+						v = sts[0].Val
+						continue
+					}
+				}
+			}
 		}
 		break
 	}
